@@ -268,5 +268,13 @@ theorem parse_monVal {p : Posting} (ha : validAsset p.asset = true) (hn : 0 ≤ 
   simp only [hsp, String.intercalate_singleton, parseInt10_repr, ha, Bool.true_and]
   simp [hn]
 
+/-- `isDigitStr` on the character list (lets `simp` evaluate the validators on literals) -/
+theorem isDigitStr_eq (s : String) : isDigitStr s = (!s.toList.isEmpty && s.toList.all Char.isDigit) := by
+  unfold isDigitStr
+  rw [String.all_bool_eq]
+  congr 2
+  apply Bool.eq_iff_iff.2
+  rw [String.isEmpty_iff, List.isEmpty_iff, String.toList_eq_nil_iff]
+
 end Tx
 end Num
